@@ -382,38 +382,38 @@ def prop(id, level, obls, explanation, **kw):
 prop("C01", "proof", ACC_V + ["v_tileset_getters", "v_extfiles_add", "v_extfiles_get", "v_tilesets_add", "v_tilesets_get", "v_compute_parents", "v_from_vec", "x_forest_exhaustive", "v_chunk_read", "v_chunk_read_all", "v_dec_layer", "v_dec_layer_type", "v_dec_blend_mode", "v_dec_tags", "v_dec_anim_dir", "v_dec_ext", "v_dec_slice_key", "v_dec_slice9", "v_dec_palette", "v_palette_color", "v_dec_tileset", "v_dec_tileset_ref", "v_check_chunk_bytes"]
      + ["k_parse_chunk_type", "k_parse_pixel_format", "k_check_chunk_bytes", "k_pixel_format_accessors"] + READER + LAYER_DEC + TAGS_DEC + SLICE_DEC
      + ["k_palette_chunk_20", "k_palette_chunk_26", "k_palette_chunk_35"] + EXT_DEC + TS_DEC + ["v_read_aseprite", "v_parse_pixel_format", "v_parse_frame", "v_num_frames", "v_num_layers", "v_file_layer", "v_file_frame", "x_decoder_contracts", "x_roundtrip_structure", "x_header_extremes"],
-     "Chunk decoders (layer, tags, external files, palette, tileset header, slice keys) are Verus contracts on the real text for EVERY payload length and entity count, field by field against the file-format layout, modulo the reader-primitive contract; the reader primitives and the enum decoders are Kani contracts (enums over their whole domain, primitives and a few decoder shapes on fixed payload sizes with symbolic contents). The composition (header, frame dispatch, accessors) cannot be executed symbolically by Kani nor extracted for Verus and is a bounded stand-in (x_*).")
+     "Every chunk decoder (layer, tags, external files, new and legacy palettes, tileset, cel, tilemap, user data, colour profile, slice keys), the chunk framing (Chunk::read / read_all), the file header and the frame dispatch are Verus contracts on the real text for EVERY payload length and entity count, field by field against the file-format layout, modulo the reader-primitive contract; 28 public accessors, the tileset / external-file tables and the parent computation are Verus contracts too. The reader primitives and the enum decoders are Kani contracts (enums over their whole domain, primitives and a few decoder shapes on fixed payload sizes with symbolic contents). slice::parse_chunk (iterator collect), by-name lookups (string comparison) and the zlib paths are bounded stand-ins (x_*).")
 prop("C02", "proof", ["v_frame_image_api", "v_single_visible_frame", "v_frame_image", "v_write_cel", "x_cels_table", "x_forest_exhaustive", "v_celsdata_add_cel", "v_celsdata_cel", "v_write_raw_cel", "v_write_tilemap_cel", "v_tile_slice", "v_tilemap_tile", "v_is_visible", "k_mul_un8", "k_cels_table", "x_mode_table", "x_frames_vs_spec", "x_cel_order_irrelevant", "x_blend_public_api"],
-     "The raw-cel rasteriser is proved FUNCTIONALLY correct by Verus for unbounded sizes (placement, clipping, row-major index, opacity product, blend call). mul_un8 == round8 and the cel table's storage-order independence are Kani contracts. frame_image / write_cel / is_visible glue and the dispatch table (Kani ICE, no dyn in Verus) are bounded stand-ins.")
+     "frame_image is proved by Verus on the real text, for every validated sprite, to be the fold of the frame's cels in increasing layer order over transparent black with hidden layers skipped; write_cel picks the layer's mode / opacity / tileset and resolves links; both rasterisers are proved FUNCTIONALLY correct for unbounded sizes (placement, clipping, row-major index, tile grid, opacity product, blend call); CelsData::add_cel touches exactly one slot (storage order cannot matter). mul_un8 == round8 is a Kani contract. The Box<dyn Fn> dispatch table (Kani ICE, no dyn in Verus), clone_as_image_rgba and the frame_cels iterator are trusted shims exercised by bounded stand-ins.")
 prop("C03", "proof", BLEND_LEAVES + BLEND_WRAPPERS + ["k_parse_blend_mode", "x_mode_table", "x_soft_light", "x_hsl_kernels", "x_blend_public_api"],
      "14 integer modes: leaves == Aseprite macros over their full domains, normal/merge == reference over all 2^72 inputs, every mode function == RGBA_BLENDER_N structure modulo callees (uninterpreted-function abstraction). soft light and the four HSL modes: integer skeleton proved, f64 kernels bounded-exec (soft light exhaustive over 65536 pairs).")
 prop("C04", "proof", ["x_cel_table_memory"] + VDEC_IDS + ["v_chunk_read", "v_chunk_read_all", "v_parse_chunk_type", "v_celsdata_new", "v_parseinfo_new", "v_parseinfo_validate", "v_celsdata_validate", "v_rawcel_validate", "v_layersdata_validate", "v_tilesets_validate", "v_compute_parents", "v_from_vec", "k_check_chunk_bytes", "k_scale_6bit", "k_parse_chunk_type", "k_parse_pixel_format"] + LAYER_DEC + TAGS_DEC + SLICE_DEC + PAL_DEC + EXT_DEC
      + TS_DEC + CEL_DEC + UD_DEC + CP_DEC + READER + ["k_tilemap_bits", "k_tile_parse", "k_cels_table", "v_read_aseprite", "v_parse_frame", "v_ud_set_tag_user_data", "v_ud_add_user_data", "v_ud_add_cel", "v_cel_mut", "x_decoder_contracts", "x_total_load"],
-     "Totality contracts: every Kani decoder harness also discharges the automatic no-panic / no-overflow / in-bounds checks for all contents of its payload size; Verus proves compute_parents and that from_vec establishes its precondition. Whole-load totality (glue, zlib, stack depth, allocation) is fault enumeration in an isolated child process.", level_note_extra="fault enumeration for the composition")
+     "Totality contracts on the real text (Verus): every decoder, the chunk framing, the header / frame loop, the dispatch, the validation stage and the parent computation return Ok or Err for EVERY input with no overflow, index error or reachable panic site; every Kani decoder harness also discharges the automatic no-panic / no-overflow / in-bounds checks for all contents of its payload size. Whole-load totality (zlib, stack depth, allocation under a 4 GiB address-space limit, hangs) is fault enumeration in an isolated child process.", level_note_extra="fault enumeration for the composition")
 prop("C05", "proof", ["v_frame_image_api", "v_cel_image_api", "v_tilemap_image_api", "v_tilesets_get", "v_file_tilemap", "v_from_vec", "v_parseinfo_validate", "v_celsdata_new", "v_parseinfo_new", "v_tilesets_validate", "v_celsdata_validate", "v_rawcel_validate", "v_imagecontent_validate", "v_layersdata_validate", "v_write_cel", "v_frame_image", "v_layer_image", "v_validate_indexed", "v_rawpixels_validate", "v_indexed_as_rgba", "v_dec_tilemap", "v_dec_tileset", "v_write_raw_cel", "v_write_tilemap_cel", "v_tile_slice", "v_tilemap_tile", "v_tilemap_lookup", "v_tile_offsets", "v_is_visible", "v_pixels_per_tile", "k_validate_indexed", "k_indexed_as_rgba", "k_tileset_head_34", "k_tileset_head_44", "x_usable_after_load"],
-     "Assume/guarantee: the renderers are proved panic-free under explicit preconditions R-pre (Verus, unbounded); that validation establishes R-pre for everything that loads is checked by fault enumeration: every loadable corrupted file is driven through every accessor.")
+     "Assume/guarantee chain on the real text (Verus, unbounded; DESIGN 10.7): the validation stage (ParseInfo::validate, CelsData::validate, RawCel::validate, LayersData::validate, TilesetsById::validate, from_vec) is proved to deliver exactly the preconditions under which frame_image / write_cel / layer_image / the rasterisers / tile lookups / AsepriteFile::tilemap / the image accessors are proved panic-free (their 'should have been caught by validate' sites are unreachable). The correspondence between the two sides, the zlib length checks and clone_as_image_rgba are exercised by fault enumeration: every loadable corrupted file is driven through every accessor.")
 prop("C06", "proof", ["v_indexed_as_rgba", "v_gray_into_rgba", "v_is_background", "v_rawpixels_validate", "v_dec_cel", "v_dec_cel_content", "v_dec_cel_common", "v_dec_image_size", "v_pixel_count", "v_cel_is_empty", "v_cel_frame", "v_cel_layer", "v_celsdata_cel"] + PIX + ["k_cel_chunk_15", "k_cel_chunk_17", "k_cel_chunk_18", "k_cel_raw_rgba_28", "k_cel_raw_gray_24", "k_cel_raw_indexed_23", "v_write_raw_cel", "x_frames_vs_spec", "x_roundtrip_structure", "x_neutral_encodings"],
      "Pixel conversions proved for all values; cel header / raw payload decode on fixed sizes; placement + alpha scaling is the Verus rasteriser contract; zlib storage, linked cels and the transparent-index rule end-to-end are bounded-exec against the composition spec.")
 prop("C07", "exploration", ["v_read_aseprite", "v_parse_frame", "v_celsdata_add_cel", "k_parse_chunk_type", "k_layer_chunk_24", "k_tileset_head_44", "x_neutral_encodings", "x_cel_order_irrelevant"],
      "Mostly glue and zlib: bounded exploration over seeded models x ~30 encoding choices; contract part: ignorable chunk codes map to the three ignorable kinds (all u16), trailing payload bytes do not change a decoder's result (layer / tileset shapes with slack bytes).")
 prop("C08", "proof", ["v_tilemap_image_api", "v_tileset_getters", "v_tilesets_get", "v_tilesets_add", "v_file_tilemap", "v_write_tilemap_cel", "v_dec_tilemap", "v_dec_bitmask", "v_dec_tileset", "k_tile_parse", "k_tile_bitmask_header", "k_tilemap_bits", "k_pixels_per_tile", "v_tilemap_tile", "v_tilemap_lookup", "v_tile_offsets", "v_tile_slice", "v_pixels_per_tile", "v_write_tilemap_cel", "x_tilemap_views"],
-     "Tile word decode, tile lookup and tile slicing are contracts over unbounded sizes; the Tilemap / Tileset views need a loaded sprite and are compared with each other and with the model on seeded sprites.")
+     "The tilemap rasteriser is proved FUNCTIONALLY (every canvas pixel shows pixel d%tile of the tile stored at d/tile, written exactly once); tile lookup for all u32 coordinates, offsets, slicing, AsepriteFile::tilemap (logical size = ceil(canvas / tile)), Tilemap::image == its cel's image, the tileset decoder (sizes without overflow, strip height fits u32) and the tileset table are Verus contracts over unbounded sizes; tile word decode is a Kani contract. Tileset::image / tile_image (iterator chains) are compared with the lookups on seeded sprites.")
 prop("C09", "proof", ["v_acc_layer_parent", "v_compute_parents", "v_from_vec", "v_is_visible", "v_frame_image", "x_forest_exhaustive"],
-     "compute_parents is proved by Verus on the real text for ALL layer sequences (any length, any depth) whose first level is 0 - the forests of the property are a subset; from_vec establishes that precondition; Layer::is_visible is proved equal to 'own flag and all ancestors' flags' for every table satisfying the parent contract. Layer::parent and the compositing gate are exhaustively executed for every forest of up to 6 (quick) / 8 (thorough) layers and every flag assignment.")
+     "compute_parents is proved by Verus on the real text for ALL layer sequences (any length, any depth) whose first level is 0 - the forests of the property are a subset; from_vec establishes that precondition; Layer::is_visible is proved equal to 'own flag and all ancestors' flags'; Layer::parent returns the stored parent; frame_image skips exactly the cels whose layer is hidden directly or through an ancestor. All of it is additionally executed for every forest of up to 6 (quick) / 8 (thorough) layers and every flag assignment.")
 prop("C10", "proof", UD_V + ["v_dec_userdata", "v_acc_cel_user_data", "v_acc_layer_user_data", "v_acc_tag_user_data", "v_acc_asepritefile_sprite_user_data"] + UD_DEC + ["x_decoder_contracts", "x_userdata_exhaustive", "x_roundtrip_structure"],
      "The attachment rule is a Verus contract on the REAL code, extracted each run, for unbounded tables and chunk sequences: ParseInfo::add_user_data attaches a record to the entity named by the current context and changes nothing else (add_layer / add_cel / add_tags / add_slice / set_tag_user_data / CelsData::cel_mut likewise), and parse_frame - the chunk dispatch - updates that context per chunk kind exactly by the rule (fold over the chunk sequence; ignorable chunks and the new palette leave it untouched, tags only count in frame 0, a legacy palette selects the sprite). Assumed in that unit: the decoders' results (their own contracts are the dec_* units) and the chunk framing. The same rule is additionally executed for all admissible chunk sequences up to length 5 / 6 through the public API; the user-data chunk decoder is a Verus (unbounded) and Kani (fixed shapes) contract.")
 prop("C11", "proof", ["v_parse_frame", "v_dec_old04", "v_dec_old11", "v_dec_palette", "v_palette_color", "v_validate_indexed", "v_rawpixels_validate", "v_scale_6bit"] + PAL_DEC + ["k_validate_indexed", "x_decoder_contracts", "x_palette_precedence", "x_indexed_needs_palette"],
-     "6-bit scaling proved for all u8; palette chunk decoders against the layout on fixed sizes; pixel-index validation on a bounded shape; precedence between chunks and the load failure for incomplete palettes are bounded-exec.")
+     "New and legacy (0x0004 / 0x0011) palette decoders are Verus contracts for every payload (accumulating skip, count 0 = 256, later packet overrides, 6-bit scaling 4c + c/16 with components >= 64 refused); parse_frame pins the precedence rule as a fold (a new-format chunk always replaces the palette, a legacy chunk only fills an empty one); validate_indexed_pixels / RawPixels::validate: an indexed sprite loads iff EVERY pixel index has a palette entry. 6-bit scaling is also a full-domain Kani contract; precedence and the load failure are executed on seeded files as well.")
 prop("C13", "exploration", READER + ["v_chunk_read", "v_chunk_read_all", "v_read_aseprite", "v_parse_frame", "k_check_chunk_bytes", "v_check_chunk_bytes", "v_dec_layer", "v_dec_tags", "v_dec_cel", "x_truncation"],
-     "Reader primitives return an error value whenever fewer bytes remain than the field needs (contract, every position of a fixed-size cursor); that declared counts drive the reads is glue: every cut offset of generated and corpus files is executed.")
+     "Contracts (Verus, every length): Chunk::read is Ok iff the WHOLE declared chunk is present, read_all yields exactly `count` complete chunks, parse_frame is Ok only if the 16-byte frame header is present, read_aseprite is Ok only after exactly num_frames frames, each decoder is Ok iff every declared byte of its payload is present; reader primitives return an error value whenever fewer bytes remain (Kani, every position of a fixed-size cursor). The top-level statement compares two runs (file vs prefix) and is decided by executing every cut offset of generated and corpus files.")
 prop("C14", "exploration", ["k_error_mapping", "k_reader_prims_6", "k_reader_sequence", "k_reader_schedule_5", "k_reader_hard_error_4", "k_reader_schedule", "k_reader_hard_error", "x_readers"],
-     "Error mapping (io::Error -> IoError, source()) is a Kani contract; independence of reader behaviour is bounded-exec with scripted readers (short reads, Interrupted, BufReader, files) and a hard error of 6 kinds injected at byte offsets.")
+     "Kani: AseReader's primitives over a scripted reader return the in-memory result for EVERY split of the stream into read() sizes and EVERY placement of transient Interrupted results (5- and 7-byte streams), and with a hard error anywhere they return the right value or that very error; error mapping (io::Error -> IoError, source()) is a Kani contract. read_bytes (std read_to_end, intractable for CBMC) and whole files are bounded-exec with scripted readers (short reads, Interrupted, BufReader, files) and a hard error of 6 kinds injected at byte offsets.")
 prop("C15", "proof", ["v_parse_chunk_type", "v_tilesets_validate", "v_read_aseprite", "v_parse_pixel_format", "v_dec_colorprofile", "v_dec_cp_type", "v_dec_tilemap", "v_dec_cel_content", "v_dec_layer_type", "v_dec_blend_mode", "v_dec_anim_dir", "v_dec_layer", "v_dec_tags", "k_parse_pixel_format", "k_parse_layer_type", "k_parse_blend_mode", "k_parse_animation_direction", "k_parse_chunk_type", "k_cel_chunk_18", "k_cel_chunk_17", "k_tilemap_bits"] + CP_DEC + ["x_decoder_contracts", "x_refusals"],
-     "Every refusal that is a branch of a contracted function is proved over the whole code domain (colour depth, layer type, blend mode, animation direction, cel type, chunk type, colour profile type/flags, bits per tile); the pixel-ratio rule and 'tileset without pixels' sit in glue and are bounded-exec at every position.")
+     "Every refusal is a branch of a contracted function and proved over the whole code domain: pixel ratio and colour depth (read_aseprite, Verus), chunk type, layer type, blend mode, animation direction, cel type, colour profile type/flags, bits per tile (Verus and Kani), tileset without embedded pixels (TilesetsById::validate, Verus); additionally executed at every position where the feature can occur.")
 prop("C16", "other", ["s_send_sync", "x_determinism", "x_total_load", "v_tilemap_lookup", "v_tile_offsets", "x_tilemap_views", "v_check_chunk_bytes", "v_read_aseprite", "v_parse_frame", "v_celsdata_validate", "v_frame_image", "v_write_raw_cel", "v_write_tilemap_cel", "v_tile_slice", "v_pixels_per_tile", "v_compute_parents", "k_mul_un8", "k_blend8", "k_merge", "k_normal_r", "k_normal_g", "k_normal_b", "k_pixel_count", "k_pixels_per_tile"],
      "(a) Send + Sync: discharged by rustc's trait solver. (b) no result depends on wrapping arithmetic: the overflow obligations of the Verus units (unbounded) and of the Kani blend leaves. (c) determinism / repeat / permute / 16 threads: sanity stand-in only - interleavings are NOT explored (Kani has no threads; Verus would need its permission types in the real code); the schedule quantifier rests on Rust's Sync + &self guarantee.")
 prop("C17", "proof", ["k_mul_un8", "k_blend8", "k_merge", "k_normal_alpha", "k_pack_i32", "k_pack_f64", "k_ch_soft_light_range", "k_blender"] + ["k_law_" + m for m in ALL_MODES] + ["k_normal_r", "k_normal_g", "k_normal_b"]
      + ["k_ch_" + m for m in ["multiply", "screen", "overlay", "darken", "lighten", "color_dodge", "color_burn", "hard_light", "difference", "exclusion", "divide"]] + ["k_mode_addition", "k_mode_subtract", "x_hsl_kernels", "x_blend_public_api", "x_tilemap_views", "v_write_raw_cel", "v_write_tilemap_cel"],
      "Observation point Frame::image: both rasterisers are proved (Verus, real text) to hand every source pixel to the blend function with the opacity product round8(layer, cel) and to write its result unchanged, so the laws of the blend functions carry over to frame images. The three laws are proved for all 19 modes (HSL included: alpha never flows through f64) from the contracts of normal / merge with every other callee uninterpreted. Range clause: integer modes via the leaf contracts (reference value in 0..=255 and equal to the truncated result) and normal's full-domain safety; soft light range proved; HSL packed range only bounded-exec.")
 prop("C18", "proof", ["v_extrude_border", "v_palette_mapper_new", "v_palette_mapper_lookup", "x_utils"], "extrude_border, PaletteMapper::new and PaletteMapper::lookup are Verus contracts on the real text (unbounded sizes / palettes; the row iterator chain and IntMap iteration are trusted shims); to_indexed_image (an iterator map/collect over image::pixels) and the feature gate are bounded-exec.")
-prop("C19", "proof", ROUTES_V + ["v_routes_agree", "v_single_visible_frame", "v_cel_image_api", "v_tilemap_image_api", "v_frame_image_api", "v_from_vec"] + [a for a in ACC_V if a.startswith("v_acc_cel_")] + ["v_layer_image", "v_write_cel", "v_frame_image", "x_cels_table", "x_routes", "x_frames_vs_spec"], "The three routes (AsepriteFile::cel, Frame::layer, Layer::frame) and the cel accessors frame / layer / is_empty are Verus contracts on the real text: all three construct the cel id (frame, layer) of the same file, so coordinates and emptiness agree by construction (swapped arguments fail the postcondition). Offset, user data and images go through the cel table and the renderer: compared on seeded sprites with frames != layers; single-visible-layer frame == cel image and tilemap image == cel image are bounded-exec.")
+prop("C19", "proof", ROUTES_V + ["v_routes_agree", "v_single_visible_frame", "v_cel_image_api", "v_tilemap_image_api", "v_frame_image_api", "v_from_vec"] + [a for a in ACC_V if a.startswith("v_acc_cel_")] + ["v_layer_image", "v_write_cel", "v_frame_image", "x_cels_table", "x_routes", "x_frames_vs_spec"], "The three routes (AsepriteFile::cel, Frame::layer, Layer::frame), the cel accessors (frame, layer, is_empty, top_left, user_data, is_tilemap, image) and Tilemap::image are Verus contracts on the real text, and two client lemmas over those contracts state the property itself: the routes, called positionally as documented, give the same cel id / file / emptiness and the coordinates asked for (a flipped parameter order fails); a frame in which exactly one cel belongs to a visible layer equals that cel's image pixel for pixel; a tilemap's image has the pixel function of its cel's image. from_vec guarantees at most 65536 layers, so the u16 cel id cannot alias. Seeded sprites with frames != layers are compared as well.")
